@@ -616,6 +616,45 @@ def total(ctx):
             if read:
                 ctx.bad(fn, "%s is memoised (%s) but reads %s, a module-level container that is modified after import (%s): the first answer is served after the registry has changed"
                         % (q, unparse(memo[0]), ", ".join(read), registries[read[0]]), key="%s::%s::memoised reader of %s" % (rel, q, read[0]))
+    # (h) result memo in a process-lifetime container that the pinned tree does not have: a function that fills a new
+    # module-level container and answers from it returns what it computed for an EARLIER call with the same key - for the
+    # properties here (fresh reads of registries / affinity / dtype / file state, digests that depend on nothing but the
+    # value) that is an answer from call history, not from the current input.
+    from .. import normalise as _norm
+    refg = _norm.reference_globals()
+    for rel in files:
+        if rel not in ctx.repo.modules or rel not in refg:
+            continue
+        mod = ctx.repo.modules[rel]
+        known_g = set(refg[rel])
+        new_containers = set()
+        for st in mod.tree.body:
+            if isinstance(st, ast.Assign) and len(st.targets) == 1 and isinstance(st.targets[0], ast.Name) and st.targets[0].id not in known_g:
+                v = st.value
+                if isinstance(v, (ast.Dict, ast.List, ast.Set)) or (isinstance(v, ast.Call) and (dotted(v.func) or "").split(".")[-1] in
+                                                                       ("dict", "list", "set", "OrderedDict", "defaultdict", "WeakKeyDictionary", "WeakValueDictionary", "WeakSet", "deque")):
+                    new_containers.add(st.targets[0].id)
+        if not new_containers:
+            continue
+        for q, fn in mod.funcs.items():
+            for G in sorted(new_containers):
+                fills = [n for n in ast.walk(fn) if (isinstance(n, ast.Subscript) and isinstance(n.ctx, ast.Store) and dotted(n.value) == G)
+                         or (isinstance(n, ast.Call) and isinstance(n.func, ast.Attribute) and dotted(n.func.value) == G and n.func.attr in ("setdefault", "add", "append", "update"))]
+                reads = [n for n in ast.walk(fn) if (isinstance(n, ast.Subscript) and isinstance(n.ctx, ast.Load) and dotted(n.value) == G)
+                         or (isinstance(n, ast.Call) and isinstance(n.func, ast.Attribute) and dotted(n.func.value) == G and n.func.attr in ("get", "pop"))]
+                if not (fills and reads):
+                    continue
+                answered = False
+                for r in [x for x in ast.walk(fn) if isinstance(x, ast.Return) and x.value is not None]:
+                    if any(n is y for n in reads for y in ast.walk(r.value)):
+                        answered = True
+                    for nm in [y.id for y in ast.walk(r.value) if isinstance(y, ast.Name)]:
+                        for a in [z for z in ast.walk(fn) if isinstance(z, ast.Assign) and nm in [getattr(t, "id", None) for t in z.targets]]:
+                            if any(n is y for n in reads for y in ast.walk(a.value)):
+                                answered = True
+                if answered:
+                    ctx.bad(reads[0], "%s answers from `%s`, a new process-lifetime container that it fills itself: a later call with the same key gets what was computed for an earlier one, "
+                                      "whatever changed in between (and whatever the key does not capture)" % (q, G), key="%s::%s::result memo %s" % (rel, q, G))
     ctx.ok(None, "%d functions of %d files: no undefined name, no local read without a reaching binding, no value-returning function that can fall off its end; %d classes keep storing every attribute they stored on the pinned tree (%d attribute reads)"
            % (n_fn, len(files), n_cls, n_use), key="%s::<files of %s>::executable on every path" % ("joblib", pid))
     ctx.floor(n_fn, 1, "functions analysed by %s.TOTAL" % pid)
